@@ -2,14 +2,16 @@
    One command per input line, one result per output line.
 
    run <T|F|A: the stream answers seekable() with True | with False | has no seekable attribute> <position> <event> ...   events:
-     O<r|w|a><T|F closefd><T|F read_evlrs>:<outcome>:<offset>,<count>,<psize>,<minor>,<nevlrs>,<evlr_start>,<evlr_bytes>,<size>
+     O<r|w|a><T|F closefd><T|F read_evlrs>:<outcome>:<offset>,<count>,<psize>,<minor>,<nevlrs>,<evlr_start>,<evlr_bytes>,<size>,<evlr_bad>,<laz>
+       (laz: 0 = the points are not flagged as compressed; 1 | 2 | 3 = LAZ-flagged and building the LAZ point reader raises a
+        LaspyException | another Exception | a BaseException that is not one)
      P<n>  S<pos>:<whence>  A (read)  Q (.point_source)  W (write/append points)  Bl | Bo (with-body raises Laspy / other)
      X (exit)  C (close)  D<outcome> (LasData.write)  L<T|F closefd>:<outcome>:<finfo> (laspy.read)  Z (caller rewinds)
      F<l|o|b> (an operation on the handle raises: the stream failed under it; class Laspy / other Exception / not an Exception)
      Y<x|c><j>:<l|o|b> (with-exit | close() and the j-th fallible statement of the close method raises)
      M<T|F closefd>:<l|o|b>:<finfo> (laspy.read whose read() fails because the stream did)
      outcomes: ok empty badsig trunc badvlr incompat fault-<l|o|b> (the stream fails while the constructor runs)
-   output: one token per event  <res>/<closed>/<pos>/<handle>  with res in ok|xl|xo|ig, handle = - or <mode><closefd><ps><src>,
+   output: one token per event  <res>/<closed>/<pos>/<handle>  with res in ok|xl|xo|xb|ig, handle = - or <mode><closefd><ps><src>,
            then `#` and the log entries <how>:<closefd>:<was_open>:<closed>, then `#` and T/F (all entries satisfy obs_okb) *)
 open Model
 
@@ -48,9 +50,10 @@ let outcome_of = function
   | "incompat" -> OIncompat | s -> failwith ("outcome " ^ s)
 let mode_of = function 'r' -> MR | 'w' -> MW | 'a' -> MA | c -> failwith "mode"
 let finfo_of s = match List.map z_of_string (String.split_on_char ',' s) with
-  | [a; b; c; d; e; f; g; h; i] ->
+  | [a; b; c; d; e; f; g; h; i; j] ->
     { f_offset = a; f_count = b; f_psize = c; f_minor = d; f_nevlrs = e; f_evlr_start = f; f_evlr_bytes = g; f_size = h;
-      f_evlr_bad = (i <> Z0) }
+      f_evlr_bad = (i <> Z0);
+      f_laz = (if j = Z0 then None else if j = z_of_int 1 then Some XLaspy else if j = z_of_int 2 then Some XOther else Some XBase) }
   | _ -> failwith ("finfo " ^ s)
 let rest t k = String.sub t k (String.length t - k)
 
